@@ -529,6 +529,56 @@ func checkC19(replay string) {
 		flavours["sequence-one-reporter"] += len(at)
 		mu.Unlock()
 	})
+	// 2c. CRLF line endings, no trailing newline, line numbers changing digit count inside the window
+	nMisc := r.Pick(4000, 40000)
+	base.Par(nMisc, 0, func(i int) {
+		rg := base.NewRand(r.Seed, fmt.Sprintf("c19misc-%d", i))
+		nLines := []int{1, 2, 3, 9, 10, 11, 12, 99, 100, 101, 102, 1000, 1001}[rg.Intn(13)]
+		lines := make([]string, nLines)
+		for k := range lines {
+			n := rg.Intn(40)
+			if rg.Chance(1, 6) {
+				n = limit - 3 + rg.Intn(8)
+			}
+			lines[k] = asciiLine(n, i*131+k)
+			if rg.Chance(1, 5) && n > 2 {
+				lines[k] = "\t" + lines[k][1:]
+			}
+		}
+		target := nLines - rg.Intn(4)
+		if target < 1 || rg.Chance(1, 3) {
+			target = 1 + rg.Intn(nLines)
+		}
+		src := lines[target-1]
+		col := 1
+		if len(src) > 0 {
+			col = 1 + rg.Intn(len(src))
+		}
+		sep, tail, flav := "\n", "\n", "lf"
+		switch rg.Intn(3) {
+		case 0:
+			sep, tail, flav = "\r\n", "\r\n", "crlf"
+		case 1:
+			tail, flav = "", "no-final-newline"
+			if lines[nLines-1] == "" {
+				lines[nLines-1] = "x" // an empty last line without a final newline is not a line at all
+				src = lines[target-1]
+				if col > len(src) {
+					col = 1
+				}
+			}
+		}
+		content := strings.Join(lines, sep) + tail
+		msg, reported, pan := renderReal("/virtual/m.go", content, target, col, false)
+		c := c19case{Lines: lines, Line: target, Col: col}
+		if key, d := judgeMsg(c, limit, msg, reported, pan); key != "" {
+			report(c, "misc-"+flav+"/"+key, fmt.Sprintf("(%s, %d lines, target line %d) %s", flav, nLines, target, d))
+		}
+		atomic.AddInt64(&cases, 1)
+		mu.Lock()
+		flavours["misc-"+flav]++
+		mu.Unlock()
+	})
 	// 3. degraded inputs
 	deg := []c19case{
 		{Lines: []string{"package x", "var a = 1"}, Line: 2, Col: 5, ReadErr: true},
